@@ -172,6 +172,9 @@ func init() {
 					{`a[id > 9]{"lit": $count($), g: v}`, map[string]interface{}{"lit": 0.0}},
 					{`a[id > 9]{g: $count($)}`, map[string]interface{}{}},
 					{`$count($keys(a[id > 9]{g: v}))`, 0.0},
+					{`a[id > 9]{"lit": $, "b": 1}`, map[string]interface{}{"b": 1.0}}, // a literal key over no items sees no value, not an empty array
+					{`a[id > 9]{"e": $exists($)}`, map[string]interface{}{"e": false}},
+					{`a[id > 9]{"t": $type($)}`, map[string]interface{}{}},
 				}
 				k := cases[c.Choose(len(cases))]
 				c.Done()
